@@ -11,10 +11,26 @@ import (
 
 // AddPairs attaches metadata onto a context and return the context.
 func AddPairs(ctx context.Context, metadata map[string]string) context.Context {
-	for key, val := range metadata {
-		ctx = Add(ctx, key, val)
+	if len(metadata) == 0 {
+		return ctx
 	}
-	return ctx
+	return context.WithValue(ctx, metadataKey{}, copyWith(ctx, metadata))
+}
+
+// copyWith returns a new map holding the metadata already on the context and
+// the given pairs. The map stored in a context is never modified: contexts
+// derived from the same parent (one per call, typically) must not see each
+// other's pairs, and may be derived concurrently.
+func copyWith(ctx context.Context, pairs map[string]string) map[string]string {
+	existing, _ := Get(ctx)
+	out := make(map[string]string, len(existing)+len(pairs))
+	for key, val := range existing {
+		out[key] = val
+	}
+	for key, val := range pairs {
+		out[key] = val
+	}
+	return out
 }
 
 // Encode generates byte form of the metadata and appends it onto the passed in buffer.
@@ -52,13 +68,9 @@ type metadataKey struct{}
 
 // Add associates a key/value pair on the context.
 func Add(ctx context.Context, key, value string) context.Context {
-	metadata, ok := Get(ctx)
-	if !ok {
-		metadata = make(map[string]string)
-		ctx = context.WithValue(ctx, metadataKey{}, metadata)
-	}
+	metadata := copyWith(ctx, nil)
 	metadata[key] = value
-	return ctx
+	return context.WithValue(ctx, metadataKey{}, metadata)
 }
 
 // Get returns all key/value pairs on the given context.
